@@ -31,6 +31,11 @@ def main():
                 print('STALE   %-50s (pattern not found)' % m['name']); results.append((m['name'], 'stale')); continue
             src = src.replace(m['old'], m['new'], m.get('count', 1))
             open(path, 'w').write(src)
+            for ex in m.get('extra', []):      # cooperating second site
+                p2 = os.path.join(scratch, ex['file'])
+                s2 = open(p2).read()
+                assert s2.count(ex['old']) >= 1, 'extra pattern not found'
+                open(p2, 'w').write(s2.replace(ex['old'], ex['new'], 1))
             for prop in m['props']:
                 if only and prop not in only:
                     continue
@@ -39,6 +44,8 @@ def main():
                 p = subprocess.run(['/venv/bin/python', '-W', 'ignore', '-m', 'vf.run', prop, '--tier', args.tier], cwd=ROOT, env=env, capture_output=True, text=True)
                 viol = [l for l in p.stdout.splitlines() if l.startswith('violation:')]
                 status = {0: 'MISSED', 1: 'caught', 2: 'HARNESS'}.get(p.returncode, 'rc=%d' % p.returncode)
+                if status == 'caught' and 'VIOLATION property=' not in p.stdout:
+                    status = 'HARNESS'
                 print('%-8s %-4s %-50s %5.1fs %s' % (status, prop, m['name'], time.time() - t0, (viol[0][:160] if viol else (p.stdout.strip().splitlines()[-1][:160] if p.stdout.strip() else p.stderr[-300:]))))
                 sys.stdout.flush()
                 results.append((m['name'], prop, status))
